@@ -188,6 +188,8 @@ def _bshape(interp, a, b):
 
 
 def array_binop(interp, op, a, b):
+    if isinstance(op, ast.MatMult):
+        return matmul(interp, a, b)
     shape, wa, wb = _bshape(interp, a, b)
     ra = wa(a.reader()) if isinstance(a, NDArr) else (lambda *i: a)
     rb = wb(b.reader()) if isinstance(b, NDArr) else (lambda *i: b)
@@ -217,6 +219,71 @@ def array_binop(interp, op, a, b):
         if m is None or m <= 0:
             raise _U(interp)("array % non-constant")
     return new_array(shape, mk, "arith")
+
+
+MATMUL_UNROLL = 8  # inner dimensions up to this concrete size are summed explicitly
+
+
+def matmul(interp, a, b):
+    """[A] numpy matrix product of 2-D arrays (and 2-D @ 1-D): (A@B)[i,k] = sum_{j<N} A[i,j]*B[j,k]  (S2: exact arithmetic).
+    Concrete inner dimension N <= MATMUL_UNROLL: the explicit sum.  Symbolic N: only when the contract author supplies, via
+    the hook `matmul_support`, for every (i,k) at most two index terms outside of which the summand vanishes; this premise is
+    PROVED at a skolem (i,k,j) (obligation `<func>:matmul.support#n`) and the product is then the closed form given by the
+    L2 lemma SUM_SUPPORT2 (lemmas/matsum.py).  No hint -> undecided."""
+    from .interp import Undecided
+
+    if not (isinstance(a, NDArr) and isinstance(b, NDArr)) or a.ndim != 2 or b.ndim not in (1, 2):
+        raise Undecided("matrix product of operands other than 2-D @ 2-D / 2-D @ 1-D arrays")
+    used("ndarray @ ndarray: (A@B)[i,k] = sum_j A[i,j]*B[j,k] (exact arithmetic, S2)")
+    N, M = a.shape[1], b.shape[0]
+    eq = to_z3(N) == to_z3(M) if (is_sym(N) or is_sym(M)) else (N == M)
+    if isinstance(eq, bool):
+        if not eq:
+            raise interp_raise(interp, "ValueError", "matmul: inner dimensions differ")
+    else:
+        nm = interp.ob_name("shape")
+        interp.path.oblige(nm, eq)
+        interp.path.assume(eq)
+    ra, rb0 = a.reader(), b.reader()
+    vec = b.ndim == 1
+    rb = (lambda j, k: rb0(j)) if vec else rb0
+    out_shape = (a.shape[0],) if vec else (a.shape[0], b.shape[1])
+
+    def term(i, j, k):
+        return as_int_term(ra(i, j)) * as_int_term(rb(j, k))
+
+    n = concrete_int(N)
+    if n is not None and n <= MATMUL_UNROLL:
+        def elem(i, k):
+            t = z3.IntVal(0)
+            for j in range(n):
+                t = t + term(i, z3.IntVal(j), k)
+            return t
+    else:
+        h = interp.hooks.get("matmul_support")
+        sup = h(interp, a, b) if h else None
+        if sup is None:
+            raise Undecided("matrix product with a symbolic inner dimension and no support hint (hook matmul_support)")
+        from lemmas.matsum import closed_form
+
+        used("L2 SUM_SUPPORT2 (lemmas/matsum.py): a sum whose terms vanish off {p,q} equals the terms at p and q")
+        path = interp.path
+        i, k, j = path.fresh("mi"), path.fresh("mk"), path.fresh("mj")
+        pts = list(sup(i, k))
+        if len(pts) > 2:
+            raise Undecided("matmul support hint with more than two points")
+        rng = [i >= 0, i < to_z3(a.shape[0]), j >= 0, j < to_z3(N)] + [j != to_z3(p) for p in pts]
+        if not vec:
+            rng += [k >= 0, k < to_z3(b.shape[1])]
+        path.oblige(interp.ob_name("matmul.support"), term(i, j, k) == 0, extra=rng)
+        Nt = to_z3(N)
+
+        def elem(i, k):
+            return closed_form(lambda p: term(i, p, k), [to_z3(p) for p in sup(i, k)], Nt)
+
+    if vec:
+        return new_array(out_shape, lambda i: elem(i, z3.IntVal(0)), "matmul")
+    return new_array(out_shape, elem, "matmul")
 
 
 def compare(interp, op, a, b):
@@ -926,6 +993,9 @@ def python_builtin(interp, name):
         return d
 
     def b_enumerate(i, x, start=0):
+        if isinstance(x, NDArr) and x.ndim == 1 and concrete_int(x.shape[0]) is None:
+            # symbolic length: only usable as the iterable of a `for` under a loop contract (loops.trip_count)
+            return Opaque("enumerate", (x, start))
         return [(k + start, v) for k, v in enumerate(i.iterate(x))]
 
     def b_zip(i, *xs):
